@@ -167,7 +167,18 @@ def run(ctx):
         for p, r in zip(sp['ivals'], o['ivals']):
             ctx.count('ival:' + p['mode'] + ':' + r['status'])
             if r['status'] == 'error':
-                ctx.violation('impl-violation', {'spec': sp, 'ival': p, 'observed': r['error'], 'expected': 'values or ValueError(overlap)'}, trigger={'what': 'ival crash'})
+                trig = {'what': 'ival crash'}
+                if 'end' not in p and len(p['start']) > 1 and tz is not None:
+                    # the documented implicit end of the last interval (last start + twice the last distance, in wall-clock time)
+                    # may not exist / be ambiguous as a local time of the zone
+                    st_ = [pd.Timestamp(t) for t in p['start']]
+                    last = st_[-1] + 2 * (st_[-1] - st_[-2])
+                    try:
+                        if last.tzinfo is None:
+                            last.tz_localize(tz)
+                    except Exception:
+                        trig = {'what': 'implicit interval end is no valid local time'}
+                ctx.violation('impl-violation', {'spec': sp, 'ival': p, 'observed': r['error'], 'expected': 'values or ValueError(overlap)'}, trigger=trig)
                 continue
             # oracle on the implementation, independent of the model: unique containing interval / None / overlap rejected
             ctx.cov['impl_oracle_evaluations'] += 1
